@@ -6,6 +6,8 @@ pub mod stubs;
 #[cfg(not(kani))]
 pub mod registry;
 
+#[cfg(any(feature = "c01", not(kani)))]
+pub mod c01;
 #[cfg(any(feature = "c04", not(kani)))]
 pub mod c04;
 #[cfg(any(feature = "c05", not(kani)))]
@@ -14,6 +16,8 @@ pub mod c05;
 pub mod c07;
 #[cfg(any(feature = "c08", not(kani)))]
 pub mod c08;
+#[cfg(any(feature = "c11", feature = "c01", not(kani)))]
+pub mod c11;
 #[cfg(any(feature = "c12", not(kani)))]
 pub mod c12;
 #[cfg(any(feature = "c16", not(kani)))]
@@ -22,3 +26,5 @@ pub mod c16;
 pub mod c17;
 #[cfg(any(feature = "c19", not(kani)))]
 pub mod c19;
+#[cfg(any(feature = "c99", not(kani)))]
+pub mod c99;
